@@ -56,6 +56,19 @@ fn seal_local(be: Be, key: &[u8], nonce: &[u8], msg: &[u8], f: &[u8], a: &[u8]) 
     })
 }
 
+/// seal with the suffixed payload type (`SUFFIX = "c"`): local with an injected nonce, public with the library's signer
+fn seal_c(be: Be, local: bool, key: &[u8], nonce: &[u8], msg: &[u8], f: &[u8], a: &[u8]) -> Option<String> {
+    with_v!(be, V => {
+        if local {
+            let k = key_of::<V, Local>(key).ok()?;
+            crate::exec4::seal_with_c::<V, Local>(&k, nonce.to_vec(), msg, f, a).ok()
+        } else {
+            let k = key_of::<V, paseto_core::version::Secret>(key).ok()?;
+            crate::exec4::seal_with_c::<V, paseto_core::version::Public>(&k, vec![], msg, f, a).ok()
+        }
+    })
+}
+
 pub fn encrypt_own(be: Be, key: &[u8], msg: &[u8], f: &[u8], a: &[u8]) -> Option<String> {
     with_v!(be, V => {
         let k = key_of::<V, Local>(key).ok()?;
@@ -229,6 +242,30 @@ pub fn gen_len_sweep(out: &mut impl Write, r: &mut Rng, thorough: bool) {
                 if be == Be::V1 && si > 0 && l % 4 != 0 { continue; }      // RSA signing is slow: thinner sweep of footer lengths
                 let msg = r.pattern(ml); let f = r.bytes(fl); let a = r.bytes(al);
                 let nonce = r.bytes(nl);
+                if si == 0 && l % 10 == 3 {
+                    // the payload-type suffix is part of the authenticated header: the same body under the other header is a forgery
+                    let v = be.version();
+                    if let Some(tok) = seal_local(be, &key, &nonce, &msg, &f, &a) {
+                        let relabelled = tok.replacen(&format!("v{v}.local."), &format!("v{v}c.local."), 1);
+                        writeln!(out, "locc.open {} {} {} {} want=err", be.name(), hex(&key), hex(relabelled.as_bytes()), hex(&a)).unwrap();
+                    }
+                    if let Some(tok) = seal_c(be, true, &key, &nonce, &msg, &f, &a) {
+                        writeln!(out, "locc.open {} {} {} {} want=ok:{}", be.name(), hex(&key), hex(tok.as_bytes()), hex(&a), hex(&msg)).unwrap();
+                        let relabelled = tok.replacen(&format!("v{v}c.local."), &format!("v{v}.local."), 1);
+                        emit_open(out, be, &key, &relabelled, &a, "err");
+                    }
+                    if be != Be::V1 || l % 40 == 3 {
+                        if let Some(tok) = sign_own(be, &sk, &msg, &f, &a) {
+                            let relabelled = tok.replacen(&format!("v{v}.public."), &format!("v{v}c.public."), 1);
+                            writeln!(out, "pubc.open {} {} {} {} want=err", be.name(), hex(&pk), hex(relabelled.as_bytes()), hex(&a)).unwrap();
+                        }
+                        if let Some(tok) = seal_c(be, false, &sk, &[], &msg, &f, &a) {
+                            writeln!(out, "pubc.open {} {} {} {} want=ok:{}", be.name(), hex(&pk), hex(tok.as_bytes()), hex(&a), hex(&msg)).unwrap();
+                            let relabelled = tok.replacen(&format!("v{v}c.public."), &format!("v{v}.public."), 1);
+                            emit_popen(out, be, &pk, &relabelled, &a, "err");
+                        }
+                    }
+                }
                 if let Some(tok) = seal_local(be, &key, &nonce, &msg, &f, &a) {
                     emit_open(out, be, &key, &tok, &a, &format!("ok:{}", hex(&msg)));
                     let hdr = format!("v{}.local.", be.version());
@@ -580,6 +617,14 @@ pub fn gen_c03_public(out: &mut impl Write, r: &mut Rng, thorough: bool) {
 
 pub fn gen_c03(out: &mut impl Write, seed: u64, thorough: bool) {
     let mut r = Rng::new(seed ^ 0xC03);
+    // footers in another spelling than the receiver's footer type would write (tokens of other implementations)
+    for be in ALL_BE {
+        for (i, ft) in [&b"{\"kid\": \"k1\"}"[..], &b"{\"kid\":\"k1\"}  "[..], &b"x"[..], &b""[..]].iter().enumerate() {
+            let key = r.bytes(32);
+            writeln!(out, "o.fcanon {} local {} {} {}", be.name(), hex(&key), hex(&r.pattern(10 + i)), hex(ft)).unwrap();
+            writeln!(out, "o.fcanon {} public - {} {}", be.name(), hex(&r.pattern(10 + i)), hex(ft)).unwrap();
+        }
+    }
     gen_c03_public(out, &mut r, thorough);
     // lengths around the block sizes of the primitives and around typical buffer / chunk sizes (a chunked keystream or MAC must
     // continue, not restart, at 4 KiB / 8 KiB / 16 KiB / 64 KiB boundaries)
